@@ -151,8 +151,47 @@ def find_line(body, pattern, nth, what):
 LOOP_RE = r"^\s*(while\b|for\b|loop\b)"
 
 
+def alpha_rename(R, fn_lines, ann, name):
+    """X9: the contract text refers to parameters and a few locals by name; rename the function's own
+    names to those (alpha-renaming, semantics preserving) so that a harmless rename in /repo does not lose
+    the anchors.  Parameters are matched by position, locals by the binding pattern that introduces them."""
+    text = "\n".join(fn_lines)
+    ren = []
+    if ann.get("params"):
+        m = re.search(r"\bfn\s+\w+(?:<[^>]*>)?\s*\(([^)]*)\)", text, re.S)
+        if not m:
+            raise LostAnchor(f"{name}: cannot parse parameter list")
+        actual = []
+        for part in m.group(1).split(","):
+            part = part.strip()
+            if not part or part in ("&self", "&mut self", "self"):
+                continue
+            pm = re.match(r"(?:mut\s+)?(\w+)\s*:", part)
+            if not pm:
+                raise LostAnchor(f"{name}: unsupported parameter pattern {part!r}")
+            actual.append(pm.group(1))
+        if len(actual) != len(ann["params"]):
+            raise LostAnchor(f"{name}: {len(actual)} parameters, contract expects {len(ann['params'])}")
+        ren += list(zip(actual, ann["params"]))
+    for canon, pat in ann.get("locals", []):
+        m = re.search(pat, text)
+        if not m:
+            raise LostAnchor(f"{name}: binding of local `{canon}` not found ({pat!r})")
+        ren.append((m.group(1), canon))
+    n = 0
+    for act, canon in ren:
+        if act != canon:
+            if re.search(r"\b" + re.escape(canon) + r"\b", text):
+                raise LostAnchor(f"{name}: cannot rename `{act}` to `{canon}`: name already in use")
+            text = re.sub(r"\b" + re.escape(act) + r"\b", canon, text)
+            n += 1
+    R.counts["X9.alpha_renamed"] = R.counts.get("X9.alpha_renamed", 0) + n
+    return text.split("\n")
+
+
 def annotate_fn(R, fn_lines, ann, name):
     """splices the contract of one function; ann is its record from annotations.py"""
+    fn_lines = alpha_rename(R, fn_lines, ann, name)
     sig, body, close = split_fn(fn_lines)
     # drop attribute lines (cfg etc. are handled by rules before)
     sig_text = name_return(R, sig, ann.get("ret"))
@@ -263,7 +302,7 @@ def extract_cycle(repo, CYCLE, R):
     fl = dedent(cut(lines, r"^fn cycle_refs<T>\(", "fn cycle_refs"))
     text = common_rules(R, "\n".join(fl))
     text = R.sub("X1.fn_generic", r"fn cycle_refs<T>\(", "fn cycle_refs(", text, expect=1)
-    text = R.sub("X6.debug_cycle", r"(?m)^\s*#\[cfg\(debug_assertions\)\]\n\s*debug_cycle\(&cycle_owned_refs\);\n", "", text)
+    text = R.sub("X6.debug_cycle", r"(?m)^\s*#\[cfg\(debug_assertions\)\]\n\s*debug_cycle\(&\w+\);\n", "", text)
     parts.append(annotate_fn(R, text.split("\n"), CYCLE["cycle_refs"], "cycle_refs"))
     ol = dedent(cut_method(lines, r"^impl<T> Rc<T> \{", "orphaned_cycle", "Rc::orphaned_cycle"))
     text = common_rules(R, "\n".join(ol))
